@@ -21,7 +21,8 @@ RULE = ("seeded release tables (several rows per time, mult 0..4, rows before st
 COMPONENTS = {"real": ["ParticleReleaser (read_release_file, window filters, discretize, __next__)", "State.append",
                        "TimeKeeper.time2step", "Grid.ll2xy", "Model loop", "pandas reader"],
               "stub": ["synthetic ocean files", "reference release schedule (oracle)"]}
-ASSUMPTIONS = ["release times lie on the model time grid and are sorted in simulation order (premise)",
+ASSUMPTIONS = ["numbers read from the release file are compared to 4e-16 relative (the text reader may round the 17th digit)",
+               "release times lie on the model time grid and are sorted in simulation order (premise)",
                "a row exactly one step after the last simulated step but before a stop that is off the step grid is not judged"]
 TIERS = {"quick": dict(runs=1500, budget_s=50, shrink=150),
          "thorough": dict(runs=150000, budget_s=900, shrink=250)}
@@ -61,6 +62,12 @@ def generate(seed: int, tier: str, idx: int) -> dict:
             lon, lat = xy_to_lonlat(sc, np.array([r["X"]]), np.array([r["Y"]]))
             r["lon"], r["lat"] = float(lon[0]), float(lat[0])
     return sc
+
+
+def same_number(a, b) -> bool:
+    """equal as numbers read from a text file: the reader may round the 17th digit differently"""
+    a, b = float(a), float(b)
+    return a == b or abs(a - b) <= 4e-16 * max(abs(a), abs(b))
 
 
 def execute(sc) -> Result:
@@ -148,10 +155,10 @@ def execute(sc) -> Result:
                         res.add(Violation("C04.position", st, f"tag {r['tag']} (lon/lat)",
                                           f"X,Y=({newv['X'][k]:.6f},{newv['Y'][k]:.6f}) residual {resid:.3g} deg^2",
                                           f"({r['X']},{r['Y']}) residual < 1e-7"))
-                elif newv["X"][k] != r["X"] or newv["Y"][k] != r["Y"]:
+                elif not same_number(newv["X"][k], r["X"]) or not same_number(newv["Y"][k], r["Y"]):
                     res.add(Violation("C04.position", st, f"tag {r['tag']}",
                                       (newv["X"][k], newv["Y"][k]), (r["X"], r["Y"])))
-                if newv["Z"][k] != r["Z"]:
+                if not same_number(newv["Z"][k], r["Z"]):
                     res.add(Violation("C04.position", st, f"tag {r['tag']} Z", newv["Z"][k], r["Z"]))
                 for c in rel.get("extra", []):
                     name = c["name"]
@@ -169,7 +176,7 @@ def execute(sc) -> Result:
                         same = got is not None and int(got) == want
                     else:
                         want = float(r[name])
-                        same = got is not None and float(got) == want
+                        same = got is not None and same_number(got, want)
                     if not same:
                         res.add(Violation("C04.columns", st, f"{name} of tag {r['tag']}", got, want))
             if not np.all(newv["alive"]) or not np.all(newv["active"]):
